@@ -29,7 +29,7 @@ theorem lead_can_step (s : St) (c : CInv s) (j : Nat) (l : Thread) (ph : Ph) (m 
     exact ⟨_, Step.reply s i j w l m o hj hi hp hw⟩
   | journal => exact ⟨_, Step.journalOk s j l m o hj hp⟩
   | apply => exact ⟨_, Step.apply s j l m o hj hp⟩
-  | publish => exact ⟨_, Step.publish s j l m o false hj hp⟩
+  | publish => exact ⟨_, Step.publish s j l m o _ hj hp rfl⟩
   | rotate => exact ⟨_, Step.rotateOk s j l m o hj hp⟩
   | acking k r =>
     cases k with
@@ -41,7 +41,7 @@ theorem lead_can_step (s : St) (c : CInv s) (j : Nat) (l : Thread) (ph : Ph) (m 
       | false => exact ⟨_, Step.release s j l m r hj hp⟩
       | true =>
         obtain ⟨i, w, hi, hw⟩ := exists_wm s c j l hj (by simp [hp, pendReply])
-        exact ⟨_, Step.handoff s i j w l m r hj hi hp hw⟩
+        exact ⟨_, Step.handoff s i j w l m r none hj hi hp hw (Or.inl c.cfgH)⟩
 
 /-- a writer waiting for an ack has a live leader — the one that merged it — that still owes an ack -/
 theorem waitAck_has_leader (s : St) (c : CInv s) (inv : PInv s) (i : Nat) (w : Thread)
@@ -101,7 +101,7 @@ theorem no_stuck (s : St) (c : CInv s) (inv : PInv s) (i : Nat) (w : Thread) (hi
     | _ => simp [hlp, pendReply] at hl
   | selecting =>
     cases ht : s.token with
-    | false => exact ⟨_, Step.lock s i w hi hpc hk ht⟩
+    | false => exact ⟨_, Step.lock s i w none hi hpc hk ht⟩
     | true =>
       have h1 := c.holders; rw [ht] at h1; simp at h1
       obtain ⟨j, l, hj, hl⟩ := exists_of_tot_pos holds s.ws (by omega)
